@@ -9,7 +9,7 @@
    libm   : ((5 key result) ...) oracle table for powf, key = base_bits * 2^32 + exponent_bits
    result : (0 payload) | (1) panicked | (2 fn arg) table lacks a powf value
    "topo.check": the C20 predicate on an observed result; "topo.known": KnownClass id. *)
-From Coq Require Import ZArith List Bool.
+From Coq Require Import ZArith List Bool Lia.
 From PushModel Require Import Base.Sx Base.Machine Base.F32 Base.F32Flocq Spec.TopoSpec Model.Topology.
 Import ListNotations.
 Open Scope Z_scope.
@@ -19,8 +19,28 @@ Definition all_usize (l : list Z) : bool := forallb in_usize l.
 Definition sx_cmp3 (c : option comparison) : Z :=
   match c with Some Lt => -1 | Some Eq => 0 | Some Gt => 1 | None => 2 end.
 
+(* The specification's [zseq] converts every index from a unary number, which is quadratic in ntotal
+   (40 s for ntotal = 70000); the checker enumerates the indices in Z and is proved to compute the same set. *)
+Fixpoint zseq_go (k : nat) (i : Z) : list Z :=
+  match k with O => [] | S k' => i :: zseq_go k' (i + 1) end.
+Lemma zseq_go_eq k : forall s, zseq_go k (Z.of_nat s) = map Z.of_nat (seq s k).
+Proof.
+  induction k as [|k IH]; intros s; cbn [zseq_go seq map]; [reflexivity|].
+  f_equal. replace (Z.of_nat s + 1) with (Z.of_nat (S s)) by lia. apply IH.
+Qed.
+Lemma zseq_fast_eq n : zseq_go (Z.to_nat n) 0 = zseq n.
+Proof. unfold zseq. exact (zseq_go_eq (Z.to_nat n) 0%nat). Qed.
+
 Section WithOps.
   Context {FO : FloatOps}.
+
+  Definition geo_nbrs_fast (ntotal ndim index : Z) (r : f32) : list Z :=
+    let e := iroot_ceil ntotal ndim in
+    let d := Z.to_nat ndim in
+    let di := digits e d index in
+    filter (fun i => within (sqdist di (digits e d i)) r) (zseq_go (Z.to_nat ntotal) 0).
+  Lemma geo_nbrs_fast_eq ntotal ndim index r : geo_nbrs_fast ntotal ndim index r = geo_nbrs ntotal ndim index r.
+  Proof. unfold geo_nbrs_fast, geo_nbrs. rewrite zseq_fast_eq. reflexivity. Qed.
 
   (* sub-operation 3: both sides of every integer-exactness fact, computed in f32 *)
   Definition fie_probe (p : profile) (a b : Z) : res (list Z) :=
@@ -91,7 +111,7 @@ Section WithOps.
             zmem index l                                              (* contains the centre *)
             && ascending l                                            (* ascending, no repeats *)
             && forallb (fun j => (0 <=? j) && (j <? ntotal)) l        (* valid indices *)
-            && zlist_eqb l (geo_nbrs ntotal ndim index r)             (* = the geometric set *)
+            && zlist_eqb l (geo_nbrs_fast ntotal ndim index r)        (* = the geometric set (geo_nbrs_fast_eq) *)
         | None => false
         end
     | _ => false                                                      (* panicked, or no neighbourhood *)
